@@ -143,6 +143,13 @@ def run_one(scratch, harness, slot, timeout, extra_args=(), keep_output=False):
         res['reason'] = 'timeout after %ds' % timeout
     elif 'VERIFICATION:- SUCCESSFUL' in out and re.search(r'1 successfully verified harnesses, 0 failures, 1 total', out):
         res['status'] = 'ok'
+    elif 'CBMC failed' in out or 'run out of memory' in out or 'CBMC timed out' in out:
+        # the back end died (memory, crash): no verdict, never an alarm
+        res['status'] = 'undecided'
+        res['reason'] = 'CBMC did not finish (out of memory / crash)'
+    elif 'VERIFICATION:- FAILED' in out and not failed:
+        res['status'] = 'undecided'
+        res['reason'] = 'Kani reported failure without naming a failed check'
     elif 'VERIFICATION:- FAILED' in out:
         real = [f for f in failed if not f['description'].startswith('unwinding assertion')]
         unsupported = [f for f in failed if 'is not currently supported by Kani' in f['description'] or 'unsupported' in f['description'].lower()]
